@@ -1,12 +1,15 @@
 #!/bin/bash
 # usage: try_seed.sh <seed dir under /verif/seeded> <check id> [more check ids]
-# Applies seeded/<dir>/patch.diff to /repo, runs the given checks (quick), and always restores /repo.
+# Applies seeded/<dir>/patch.diff to a scratch worktree of /repo's HEAD (never to /repo itself) and runs the given checks
+# (quick tier) against that worktree through VERIF_REPO; the worktree is removed afterwards.
 d=/verif/seeded/$1; shift
-cd /repo && git diff --quiet || { echo "/repo has uncommitted changes"; exit 2; }
-git -C /repo apply $d/patch.diff || { echo "patch does not apply"; exit 2; }
-trap 'git -C /repo checkout -- . ' EXIT
+wt=/tmp/seedrepo
+git -C /repo worktree remove --force $wt >/dev/null 2>&1; rm -rf $wt
+git -C /repo worktree add -q --detach $wt HEAD || exit 2
+trap 'git -C /repo worktree remove --force /tmp/seedrepo >/dev/null 2>&1' EXIT
+git -C $wt apply $d/patch.diff || { echo "patch does not apply"; exit 2; }
 cd /verif
 for c in "$@"; do
-  out=$(./check $c 2>&1); rc=$?
-  echo "$c rc=$rc :: $(echo "$out" | grep -E 'violation|VIOLATION' | head -3 | cut -c1-260 | tr '\n' '|')"
+  out=$(VERIF_REPO=$wt ./check $c 2>&1); rc=$?
+  echo "$c rc=$rc :: $(echo "$out" | grep -E 'violation|VIOLATION|HARNESS' | head -3 | cut -c1-260 | tr '\n' '|')"
 done
